@@ -30,6 +30,7 @@ to reorder source code characters in a way that changes its logic.
 .. versionadded:: 1.7.10
 
 """  # noqa: E501
+import io
 from tokenize import detect_encoding
 
 import bandit
@@ -54,10 +55,16 @@ BIDI_CHARACTERS = (
 @test.test_id("B613")
 @test.checks("File")
 def trojansource(context):
-    with open(context.filename, "rb") as src_file:
-        encoding, _ = detect_encoding(src_file.readline)
-    with open(context.filename, encoding=encoding) as src_file:
-        for lineno, line in enumerate(src_file.readlines(), start=1):
+    # read the source bandit was given (for "-" this is the piped-in text:
+    # there is no file called "<stdin>" that could be opened by name)
+    src_file = context.file_data
+    src_file.seek(0)
+    encoding, _ = detect_encoding(src_file.readline)
+    src_file.seek(0)
+    text = src_file.read().decode(encoding)
+    # newline=None: universal newlines, as opening the file in text mode did
+    with io.StringIO(text, newline=None) as src_lines:
+        for lineno, line in enumerate(src_lines.readlines(), start=1):
             for char in BIDI_CHARACTERS:
                 try:
                     col_offset = line.index(char) + 1
